@@ -38,7 +38,7 @@ ASSUMPTIONS = [
 ]
 BUDGET = {"quick": (32, 8), "thorough": (None, 40)}
 GEN = dict(mode="branch", max_households=3)
-KINDS = ["scale_group", "one_leaf", "copy_all", "copy_group", "clone_rule", "plus_one", "rounding_base"]
+KINDS = ["scale_group", "one_leaf", "copy_all", "copy_group", "clone_rule", "plus_one", "rounding_base", "rounding_offset"]
 
 
 def numeric_paths(obj, path=()):
@@ -145,7 +145,7 @@ def strategy(date, ctx):
             r["rule"] = draw(st.sampled_from(rules))
         elif kind == "plus_one":
             r["rule"] = draw(st.sampled_from(float_rules))
-        elif kind == "rounding_base":
+        elif kind in ("rounding_base", "rounding_offset"):
             r["rule"] = draw(st.sampled_from(rounded))
         return _Case((pop, r))
 
@@ -187,6 +187,12 @@ def apply_reform(date, r):
         g = functions[n].__info__["params_key_for_rounding"]
         p2 = copy.deepcopy(params)
         p2[g]["rounding"][n]["base"] = p2[g]["rounding"][n]["base"] * 10
+        return p2, functions, descendants(date, {n})
+    if kind == "rounding_offset":
+        n = r["rule"]
+        g = functions[n].__info__["params_key_for_rounding"]
+        p2 = copy.deepcopy(params)
+        p2[g]["rounding"][n]["to_add_after_rounding"] = p2[g]["rounding"][n].get("to_add_after_rounding", 0) + 7
         return p2, functions, descendants(date, {n})
     raise ValueError(kind)
 
@@ -249,8 +255,47 @@ def aliasing_scan(date):
     return fails
 
 
+def cross_environment_scan(date):
+    """Two separately set-up environments (same date, and a neighbouring date) must not share any
+    mutable object: otherwise an in-place reform of one leaks into the other."""
+    import datetime as _dt
+
+    e1 = env.fresh_env(date)[0]
+    fails = []
+    for other_date in (date, date + _dt.timedelta(days=200)):
+        e2 = env.fresh_env(other_date)[0]
+        seen = {}
+
+        def walk(obj, path, record):
+            if isinstance(obj, (dict, list, np.ndarray)):
+                if record:
+                    seen.setdefault(id(obj), path)
+                elif id(obj) in seen:
+                    return path, seen[id(obj)]
+                if isinstance(obj, dict):
+                    for k, v in obj.items():
+                        r = walk(v, (*path, k), record)
+                        if r:
+                            return r
+                elif isinstance(obj, list):
+                    for i, v in enumerate(obj):
+                        r = walk(v, (*path, i), record)
+                        if r:
+                            return r
+            return None
+
+        walk(e1, (), True)
+        hit = walk(e2, (), False)
+        if hit:
+            fails.append(core.Failure("alias-across-environments",
+                                      f"{date}: params{list(hit[1])} of one set_up_policy_environment call and params{list(hit[0])} of another call ({other_date}) are the same mutable object",
+                                      {"date": str(date), "kind": "alias"}))
+            break
+    return fails
+
+
 def prepare(date, ctx, sh):
-    for f in aliasing_scan(date):
+    for f in aliasing_scan(date) + cross_environment_scan(date):
         if f.key in ctx["known"]:
             sh.known_seen[f.key] += 1
         else:
@@ -288,6 +333,7 @@ def replay(case):
     import datetime
 
     if case.get("kind") == "alias":
-        return aliasing_scan(datetime.date.fromisoformat(case["date"]))
+        d = datetime.date.fromisoformat(case["date"])
+        return aliasing_scan(d) + cross_environment_scan(d)
     df, date = popcheck.unpack(case)
     return check(df, date, case["reform"])
